@@ -162,14 +162,12 @@ fn compute_block_facts<'ast, 'arena>(
                     set_all_locals(&mut uses, local_count);
                     continue;
                 }
+                // A callee's capture writes are only *possible* writes (the callee may
+                // take a path that never assigns), so they must not shadow later uses
+                // or kill liveness: only its capture reads matter here.
                 for &local in &summary.transitive_capture_reads {
                     if facts.locals[local.0 as usize].owner == function {
                         note_use(&mut uses, &defs, local, local_start);
-                    }
-                }
-                for &local in &summary.transitive_capture_writes {
-                    if facts.locals[local.0 as usize].owner == function {
-                        note_def(&mut defs, local, local_start);
                     }
                 }
             }
@@ -190,15 +188,10 @@ fn apply_op_transfer(
     local_start: u32,
     local_count: u32,
 ) {
+    // Only the statement's own definite write kills; a callee's capture write may
+    // not happen, so the previous value can still be observed afterwards.
     for &local in &op.writes {
         clear_local(live, local, local_start);
-    }
-    for &callee in &op.direct_callees {
-        for &local in &summaries[callee.0 as usize].transitive_capture_writes {
-            if facts.locals[local.0 as usize].owner == function {
-                clear_local(live, local, local_start);
-            }
-        }
     }
 
     for &local in &op.reads {
